@@ -3,6 +3,7 @@ package p2j
 import (
 	"context"
 	"fmt"
+	"math"
 	"strconv"
 
 	"github.com/cloudwego/dynamicgo/http"
@@ -190,11 +191,18 @@ func (self *BinaryConv) unmarshalSingular(ctx context.Context, resp http.Respons
 		if e != nil {
 			return wrapError(meta.ErrRead, "unmarshal Floatkind error", e)
 		}
+		if math.IsNaN(float64(v)) || math.IsInf(float64(v), 0) {
+			// JSON has no representation for NaN/Inf
+			return wrapError(meta.ErrConvert, fmt.Sprintf("unsupported float value %v", v), nil)
+		}
 		*out = json.EncodeFloat64(*out, float64(v))
 	case proto.DOUBLE:
 		v, e := p.ReadDouble()
 		if e != nil {
 			return wrapError(meta.ErrRead, "unmarshal Doublekind error", e)
+		}
+		if math.IsNaN(v) || math.IsInf(v, 0) {
+			return wrapError(meta.ErrConvert, fmt.Sprintf("unsupported double value %v", v), nil)
 		}
 		*out = json.EncodeFloat64(*out, float64(v))
 	case proto.STRING:
